@@ -7,5 +7,6 @@ mkdir -p target evidence replays
 gcc -O2 -shared -fPIC -o target/libsimio.so simio/simio.c -ldl
 gcc -O2 -o target/fake-rustfmt fake-rustfmt/fake_rustfmt.c
 (cd /repo && cargo build --release --offline -p rasn-compiler --features cli --bin rasn_compiler_cli --target-dir "$VERIF_DIR/target/cli" 2>&1 | tail -1) || true
+(cd macro-capture && cargo build --release --offline 2>&1 | tail -1)
 (cd dsim && cargo build --release --offline 2>&1 | tail -3)
 echo "setup: ok"
